@@ -58,7 +58,7 @@ CLAIMED = {
         "(characters) model/Lexer.v restates how pyparsing cuts the text of a definition into tokens (identifier with dotted parts, the three number expressions in their order, '>=' before '>', brackets, comma, skipped whitespace, and the word-end look-ahead that makes '1.5.3' or '1.5abc' no parameter): lexing any rendering of any token list -- any whitespace before each token and at the end, at least one character between two word-like tokens -- "
         "returns exactly those tokens (c09_lex_render), so two renderings that differ only in whitespace read the same (c09_whitespace_invariant) and every definition tree is read back from every rendering of its printed tokens with every spelling of its labels and numbers (c09_text_roundtrip). "
         "(whitespace in any text) a non-empty run of whitespace may be replaced by any other and whitespace at the ends dropped, so pieces joined by a newline read like pieces joined by a blank (c09_ws_run, c09_ws_ends, c09_continuation_lines); "
-        "(lines) model/Ini.v restates configparser's line parser as the repository configures it plus the repository's optionxform: the first '=' or ':' splits an option line whichever is written and whatever blanks surround it (c09_delimiter_choice), blanks and tabs anywhere in a key do not matter (c09_key_blanks), and a one-section one-option file with any indentation, delimiter, blanks and any number of continuation lines yields a value that reads like its pieces on one line (c09_file_value_reading). "
+        "(lines) model/Ini.v restates configparser's line parser as the repository configures it plus the repository's optionxform: the first '=' or ':' splits an option line whichever is written and whatever blanks surround it (c09_delimiter_choice), blanks and tabs anywhere in a key do not matter (c09_key_blanks), and a one-section one-option file with any indentation, delimiter, blanks and any number of continuation lines yields a value that reads like its pieces on one line (c09_file_value_reading), and a whole file printed from its structure (sections, options, continuation lines; headers and keys in the first column) parses back to exactly that structure (c09_parse_render). "
         "The standard library is outside the repository: model/Ini.v is an assumption about it, compared with _RawConfigParser on generated files on every run; float() of a number spelling and entry order are compared only (partial). "
         "Tie: exact bodies of the grammar, _descend_tree, the reducing modifiers (+ regenerated closures, symbol-table code of C12); parse trees of generated and malformed token lists in arbitrary spellings vs ConfigParser's tuple chains; read_value (lexer + flags + parser) vs _parse_multi_range on renderings, character edits of them, glued lexemes and random strings (accept/reject, labels, float values), pyparsing's number expressions / identifier characters / whitespace and configparser's patterns / flags re-read from the installed libraries; parse_ini vs _RawConfigParser on generated files; thorough tier: all 24 364 strings of a small scope through lexer model and pyparsing; n-ary nested modifiers in [Pair] / [EAM-Embed] / [EAM-Density] (plain and A->B) interval-certified; formulas over + - * / ^ if(), calls, as.polynomial, pymath.* vs the evaluator model by vm_compute.",
    note="Trusted: Coq kernel; hand-written syntax and lexer models tied by AST assertions + parse-tree comparison (ASCII text only); configparser lexing by generation; cexprtk operator semantics and pymath = math module assumed; Reals axioms + classic + funext for the modifier theorems (syntax and formula theorems axiom-free); primitive axioms via interval in the correspondence only.",
@@ -106,7 +106,7 @@ CLAIMED = {
         "every catalogue malformation (unknown form / modifier / target, wrong parameter count, spline keyword outside spline, trans arity and shift, spline part count / type / parameters / r_min range incl. the end points / range order / argument count, missing sections, key styles, unusable table forms) invalidates the piece it hits, "
         "and an invalid piece invalidates whatever contains it at any depth (c16_instances, c16_modifiers, c16_spline_middle, c16_containment, c16_sections, c16_density_keys). "
         "Tie: regenerated arities + assertions of the argument-count check, trans / spline validation, _is_vararg_signature, potable main() and the exception hierarchy; validate compared with Configuration().read on generated well-formed models over all eleven targets and one catalogue mutation of each, a sample through the potable CLI; "
-        "text-level malformations (non-numeric tokens, placeholders, not-an-INI-file, signatures, formulas, table data, grid options, [Species]) by the oracle.",
+        "text-level malformations (non-numeric tokens, placeholders, not-an-INI-file, signatures, formulas, table data, grid options, [Species]) by the oracle. Text level (model/Ini.v, the line parser of configparser as the repository configures it, compared with it on every run): when the first line that is neither blank nor a comment is not a section header the parse fails (c16_not_ini_text); ConfigParser turns every configparser error into a configuration error (asserted on the AST).",
    note="Trusted: Coq kernel (no axioms); hand-written model tied by generated arities, AST assertions and outcome comparison; lexing by generation; malformations below the model's lexical level are oracle-only (tests, not theorems); numeric failures of well-formed models skipped.",
    technique="Coq proof (decision procedure = declarative grammar, by mutual induction; catalogue lemmas) + vm_compute correspondence on generated models and mutations", ref="DESIGN.md section 4 C16"),
  'C17': dict(
@@ -129,7 +129,7 @@ CLAIMED = {
  'C20': dict(
    text="Coq theorems over model/Duplicates.v: a second definition of the same pair interaction in either species order is rejected and an accepted [Pair] section defines every interaction once; two lines of one section differing only in whitespace are rejected by the parse; "
         "an accepted file binds every pair interaction and every potential-form label (formula or table form) to exactly one definition and shadows no built-in form (c20_unique_binding). "
-        "Tie: optionxform/_key_transform/_check_for_duplicate_pairs asserted on the AST; accept/reject verdict of generated models with one entry duplicated in 13 ways compared with Configuration().read.",
+        "Tie: optionxform/_key_transform/_check_for_duplicate_pairs asserted on the AST; accept/reject verdict of generated models with one entry duplicated in 13 ways compared with Configuration().read. Character level (model/Ini.v): after any well-formed file a second header with the name of an earlier section (other than [Variables]) or a further option of the last section whose key equals an earlier one after optionxform - i.e. up to blanks and tabs anywhere in it (c20_key_blanks) - makes the parse fail (c20_duplicate_section_text, c20_duplicate_option_text); parse_ini is compared with the raw parser of the repository on generated files on every run.",
    note="Trusted: Coq kernel; hand-written duplicate-check model tied by AST assertions + behavioural comparison; INI lexing by generation. No axioms.",
    technique="Coq proof over a duplicate-check model + vm_compute correspondence", ref="DESIGN.md section 4 C20"),
 }
